@@ -23,6 +23,7 @@ class StmtMixin:
         if m is None:
             raise Unsupported("statement %s" % type(st).__name__)
         self.cur_line = getattr(st, "lineno", None)
+        self.cur_env = env  # the frame whose contract supplies ghost_args at call sites
         anchors = getattr(env, "anchors", None)
         if anchors and id(st) in anchors:
             for kind, label, payload in anchors[id(st)]:
@@ -116,6 +117,8 @@ class StmtMixin:
 
     def assign(self, tgt, val, env):
         if isinstance(tgt, ast.Name):
+            if isinstance(val, EmptyLiteral) and getattr(env, "local_types", {}).get(tgt.id) is not None:
+                val = self.materialize(val, env.local_types[tgt.id])  # "xs = []" with a type given in the contract
             if isinstance(val, V):
                 old = env.locals.get(tgt.id)
                 declared = getattr(env, "local_types", {}).get(tgt.id)
@@ -164,6 +167,8 @@ class StmtMixin:
             elif isinstance(ty, TDict):
                 k = sym.coerce(idx, ty.k)
                 new = sym.dict_mk(ty, z3.Store(sym.dict_dom(base), k.t, True), z3.Store(sym.dict_val(base), k.t, sym.coerce(val, ty.v).t))
+                self.dict_mutate(tgt.value, base, new, env, "store", k.t, val)
+                return
             elif ty == TBytes:
                 n = sym.bytes_len(base)
                 i = self.norm_index(sym.as_int(idx), n)
@@ -240,7 +245,7 @@ class StmtMixin:
                 if isinstance(base.ty, TDict):
                     k = sym.coerce(idx, base.ty.k)
                     self.fail(z3.Select(sym.dict_dom(base), k.t), "KeyError", "del missing key", tgt)
-                    self.mutate(tgt.value, base, sym.dict_mk(base.ty, z3.Store(sym.dict_dom(base), k.t, False), sym.dict_val(base)), env)
+                    self.dict_mutate(tgt.value, base, sym.dict_mk(base.ty, z3.Store(sym.dict_dom(base), k.t, False), sym.dict_val(base)), env, "delete", k.t)
                     continue
                 if isinstance(base.ty, TList):
                     self.mutate(tgt.value, base, self.list_pop(base, sym.as_int(idx), tgt)[0], env)
@@ -315,8 +320,24 @@ class StmtMixin:
             else:
                 mode = "seq"
                 it_expr = it
+            dict_view = None
             if mode in ("enum", "seq"):
-                seq0 = self.evalv(it_expr, env)
+                from .dictiter import DictView
+
+                if isinstance(it_expr, ast.Call):
+                    self._enum_tag = "_seq%d" % ordn  # ghost names of an enumeration made by this iterable
+                seq0 = self.eval(it_expr, env)
+                self._enum_tag = None
+                if isinstance(seq0, DictView):
+                    # for-loop directly over d.keys()/values()/items(): snapshot enumeration (dictiter.py)
+                    dict_view = seq0
+                    seq0 = self.enum_dict(seq0, env, "_seq%d" % ordn)
+                if not isinstance(seq0, V):
+                    raise Unsupported("for over %s" % type(seq0).__name__)
+                if isinstance(it_expr, ast.Call) and isinstance(seq0.ty, TList):
+                    # the iterable expression is evaluated ONCE (Python semantics); iterate the bound snapshot
+                    env.locals["_seq%d" % ordn] = seq0
+                    it_expr = ast.Name(id="_seq%d" % ordn, ctx=ast.Load())
                 if isinstance(seq0.ty, TRef) or not isinstance(seq0.ty, (TList, TTuple)) and seq0.ty != TBytes:
                     raise Unsupported("for over %s" % seq0.ty)
                 if isinstance(seq0.ty, TTuple):
@@ -388,19 +409,33 @@ class StmtMixin:
             t = self.spec_bool(cl, env)
             self.ctx.oblige("%s:loop%d.init.%d" % (fname, ordn, j), "loop-init", t, site=st.lineno, note=cl)
         # 2. havoc what the body may modify
+        outer_dirty = self.heap.dirty
+        self.heap.dirty = []
+        pre_locals = dict(env.locals)
         self.havoc_for_loop(st, env, spec)
+        havocked_keys = {k for k, _r in self.heap.dirty}
+        self.heap.dirty = []
         if kind == "for":
             env.locals[idxname] = sym.fresh(TInt, self.ctx.fresh_name(idxname))
+        head_locals = dict(env.locals)
+        havocked_names = {n for n, v in head_locals.items() if pre_locals.get(n) is not v}
+        n_new = len(getattr(self, "new_refs", []))
         for cl in invs:
             self.ctx.assume(self.spec_bool(cl, env))
         dec0 = None
         if spec.get("decreases"):
             dec0 = self.spec_val(spec["decreases"], env).t
+        head_dict = None
+        if kind == "for" and dict_view is not None:
+            head_dict = self.spec_val(ast.unparse(dict_view.node), env)
         # 3. one arbitrary iteration
         if self.ctx.branch(cond_value()):
             if kind == "for":
                 bind_target()
             back = False
+            if not hasattr(self, "loop_stack"):
+                self.loop_stack = []
+            self.loop_stack.append(spec)
             try:
                 self.exec_block(st.body, env)
                 back = True
@@ -408,7 +443,34 @@ class StmtMixin:
                 back = True
             except PyBreak:
                 pass
+            finally:
+                self.loop_stack.pop()
+                body_dirty = self.heap.dirty
+                self.heap.dirty = outer_dirty + [(k, None) for k in havocked_keys] + body_dirty
             if back:
+                # frame check of the loop rule: whatever the body changed must have been havocked at the loop head
+                # (otherwise the "arbitrary iteration" would start from a state that is too specific)
+                fresh_refs = getattr(self, "new_refs", [])[n_new:]
+                for key, ref in body_dirty:
+                    if key in havocked_keys:
+                        continue
+                    if ("<opaque>", "*") in havocked_keys and key not in getattr(self, "_opaque_keep", set()):
+                        continue
+                    if ref is not None and any(ref.eq(r) for r in fresh_refs):
+                        continue  # field of an object created in this iteration
+                    raise Unsupported("loop %d of %s: the body modifies %s.%s, which the loop head does not havoc (add it to the loop's modifies)" % (ordn, fname, key[0], key[1]))
+                for n, v0 in head_locals.items():
+                    v1 = env.locals.get(n)
+                    if isinstance(v0, V) and isinstance(v1, V) and v0.ty != v1.ty and not n.startswith("_") and not (isinstance(v0.ty, TOpt) and v0.ty.inner == v1.ty):
+                        # the head havoc produced a value of the pre-loop type only: later iterations would be lost
+                        raise Unsupported("loop %d of %s: local %s changes type in the body (%s -> %s); declare its type in the contract's locals=" % (ordn, fname, n, v0.ty, v1.ty))
+                    if v1 is v0 or n in havocked_names or not isinstance(v0, V) or not isinstance(v1, V):
+                        continue
+                    if not v0.t.eq(v1.t):
+                        raise Unsupported("loop %d of %s: the body changes local %s, which the loop head does not havoc (add it to the loop's modifies)" % (ordn, fname, n))
+                if head_dict is not None:
+                    cur_dict = self.spec_val(ast.unparse(dict_view.node), env)
+                    self.ctx.oblige("%s:loop%d.dict-unchanged" % (fname, ordn), "assert", cur_dict.t == head_dict.t, site=st.lineno, note="the dict iterated by a view is not modified by the loop body")
                 for j, cl in enumerate(invs):
                     t = self.spec_bool(cl, env)
                     self.ctx.oblige("%s:loop%d.preserve.%d" % (fname, ordn, j), "loop-preserve", t, site=st.lineno, note=cl)
@@ -451,8 +513,16 @@ class StmtMixin:
             nv = sym.fresh(ty, self.ctx.fresh_name(f))
             for fm in sym.wf(nv):
                 self.ctx.assume(fm)
+            self.field_touched(owner, f, b.t)
             self.heap.write(owner, f, ty, b.t, nv.t)
         for extra in spec.get("modifies", []):
+            if extra == "<opaque>":
+                # the body calls opaque callables: everything they may touch is unknown at the loop head
+                cfg = self.registry.consts.get("OPAQUE_CALL")
+                if not cfg:
+                    raise Unsupported("modifies '<opaque>' without OPAQUE_CALL declaration")
+                self.havoc_all_but(cfg["preserves"])
+                continue
             self.havoc_location(extra, env)
 
     def havoc_location(self, loc: str, env):
@@ -460,6 +530,8 @@ class StmtMixin:
         if loc.endswith("[*]"):
             cn, f = loc[:-3].split(".")
             owner, ty = self.field(cn, f)
+            self.field_touched(owner, f, None)
+            self.heap.dirty.append(((owner, f), None))
             self.heap.arrays[(owner, f)] = z3.Const(self.ctx.fresh_name("h_%s.%s" % (owner, f)), z3.ArraySort(z3.IntSort(), sym.sort_of(ty)))
             return
         node = ast.parse(loc, mode="eval").body
@@ -484,9 +556,32 @@ class StmtMixin:
             nv = sym.fresh(ty, self.ctx.fresh_name(f))
             for fm in sym.wf(nv):
                 self.ctx.assume(fm)
+            self.field_touched(owner, f, base.t)
             self.heap.write(owner, f, ty, base.t, nv.t)
             return
         raise Unsupported("modifies location %s" % loc)
+
+    def loc_key(self, loc: str, env):
+        """(owner class, field) named by a modifies entry, or None for a local name"""
+        if loc.endswith("[*]"):
+            cn, f = loc[:-3].split(".")
+            return (self.field(cn, f)[0], f)
+        node = ast.parse(loc, mode="eval").body
+        if isinstance(node, ast.Attribute):
+            self.spec += 1
+            try:
+                base = self.evalv(node.value, env)
+            finally:
+                self.spec -= 1
+            if isinstance(base.ty, TOpt):
+                base = sym.opt_val(base)
+            from .model import _mangle
+
+            f = node.attr
+            if f not in self.model(base.ty.cls).fields and env.cls is not None:
+                f = _mangle(f, env.cls.name)
+            return (self.field(base.ty.cls, f)[0], f)
+        return None
 
     def s_Try(self, st, env):
         try:
@@ -596,9 +691,11 @@ def resolve_anchors(fnode, contract):
                 try:
                     norm = ast.unparse(ast.parse(text).body[0]) if text.strip() else ""
                 except SyntaxError:
-                    # header line of a compound statement ("for x in xs:", "if c:", "while c:") - matched against
-                    # _head() as written
-                    norm = text.strip()
+                    # header of a compound statement ("for x in y:", "if c:", "while c:")
+                    try:
+                        norm = _head(ast.parse(text + " pass").body[0])
+                    except SyntaxError:
+                        norm = text.strip()
                 cands = [s for s in stmts if _head(s) == norm]
             if nth >= len(cands):
                 missing.append(anchor)
